@@ -107,7 +107,7 @@ def extract_function(f):
     out = rules.apply_rules(text, ctx, f.get('rules'))
     if f.get('rename'):
         out = re.sub(r'\bfn\s+' + re.escape(f['name']) + r'\b', 'fn ' + f['rename'], out, count=1)
-    return dict(lines=out.split('\n'), src_line=line, sha=sha(text), applied=ctx.applied, fmt=ctx.fmt, lits=ctx.lits)
+    return dict(lines=out.split('\n'), src_line=line, sha=sha(text), applied=ctx.applied, fmt=ctx.fmt, lits=ctx.lits, fmt_nargs=getattr(ctx, 'fmt_nargs', {}))
 
 
 def extract_type(t):
@@ -136,7 +136,8 @@ def extract_type(t):
 
 
 def fkey(f):
-    return ((f.get('impl') or '') + '::' if f.get('impl') else '') + (f.get('rename') or f['name'])
+    imp = f.get('key_impl') or f.get('impl') or ''
+    return (imp + '::' if imp else '') + (f.get('rename') or f['name'])
 
 
 def ov_path(unit, f):
@@ -149,7 +150,7 @@ def build_unit(unit, canary=False, mutate=None, strict=True, only=None):
     parts = ['// GENERATED from %s working tree by vk/build.py -- never stored, never edited' % REPO,
              '#![allow(unused_imports, unused_variables, unused_mut, dead_code, unused_parens, non_snake_case, unused_assignments, unreachable_code, non_camel_case_types, unused_braces)]',
              'use vstd::prelude::*;', 'verus! {']
-    info = dict(functions=[], types=[], fmt={}, drift=[], lits={})
+    info = dict(functions=[], types=[], fmt={}, drift=[], lits={}, fmt_nargs={}, unknown_fmt=[])
     for p in unit.get('prelude', []):
         parts.append('// ---- prelude ' + p)
         parts.append(open(os.path.join(HERE, 'prelude', p)).read())
@@ -209,6 +210,7 @@ def build_unit(unit, canary=False, mutate=None, strict=True, only=None):
                 else:
                     raise Inconclusive('canary: body start of %s not found' % fkey(f))
             info['fmt'].update(ef['fmt'])
+            info['fmt_nargs'].update(ef['fmt_nargs'])
             info['lits'].update(ef['lits'])
             marks.append((sum(p.count('\n') + 1 for p in parts), fkey(f), len(merged)))
             parts.append('\n'.join(merged))
@@ -230,13 +232,24 @@ def build_unit(unit, canary=False, mutate=None, strict=True, only=None):
     parts.append('fn main() {}')
     text = '\n'.join(parts) + '\n'
     info['marks'] = marks
-    # every fmt shim used must be declared in the prelude/spec with the same literal
+    # every fmt shim used must be declared in the prelude/spec with the same literal.  A literal nobody declared
+    # (the source changed) gets an uninterpreted shim: nothing can be proved about its output, so the caller's
+    # contract fails instead of the run being inconclusive.
+    extra = []
     for h, lit in (info['fmt'].items() if strict else []):
         decl = re.search(r'//\s*LIT\s+fmt_%s\s*:\s*"(.*)"\s*$' % h, text, re.M)
         if not decl:
-            raise Inconclusive('fmt shim fmt_%s for literal "%s" is not declared' % (h, lit))
-        if decl.group(1) != lit:
+            n = info['fmt_nargs'].get(h, 0)
+            gens = ''.join(', A%d' % i for i in range(n))
+            params = ''.join(', a%d: A%d' % (i, i) for i in range(n))
+            extra.append('// unknown format literal "%s"\npub uninterp spec fn fmt_unknown_%s() -> Seq<u8>;\n#[verifier::external_body]\n'
+                         'pub fn fmt_%s<W: Write%s>(file: &mut W%s) -> (r: Result<()>)\n    ensures wrote(*old(file), *final(file), r is Ok, fmt_unknown_%s())\n{ unimplemented!() }'
+                         % (lit, h, h, gens, params, h))
+            info['unknown_fmt'].append(lit)
+        elif decl.group(1) != lit:
             raise Inconclusive('fmt shim fmt_%s declared for "%s" but source has "%s"' % (h, decl.group(1), lit))
+    if extra:
+        text = text.replace('} // verus!', '\n'.join(extra) + '\n} // verus!')
     return text, info
 
 
@@ -360,10 +373,23 @@ def check_unit(name, canary=True, rlimit=None, keep=False, mutate=None):
     tag = ('__' + re.sub(r'\W', '_', mutate['id'])) if mutate else ''
     path = os.path.join(CACHE, 'gen', 'vk_%s%s.rs' % (name, tag))
     open(path, 'w').write(text)
+    # main run and canary run proceed concurrently (two solver processes)
+    import concurrent.futures as _cf
+    cfut = None
+    ex = _cf.ThreadPoolExecutor(max_workers=2)
+    cpath = os.path.join(CACHE, 'gen', 'vk_%s__canary.rs' % name)
+    cinfo = None
+    if canary and not mutate:
+        try:
+            ctext, cinfo = build_unit(unit, canary=True)
+            open(cpath, 'w').write(ctext)
+            cfut = ex.submit(run_verus, cpath, rlimit or unit.get('rlimit', 60))
+        except Inconclusive as e:
+            r['inconclusive'].append('canary: ' + str(e))
     res = run_verus(path, rlimit or unit.get('rlimit', 60))
     c = classify(res, info, name)
     r.update(info=info, verus_cmd=res['cmd'], verus_wall=res['wall'], total_verified=c['total_verified'], total_errors=c['total_errors'],
-             failed=c['failed'], inconclusive=c['inconclusive'], times=c['times'], gen_path=path)
+             failed=c['failed'], inconclusive=r['inconclusive'] + c['inconclusive'], times=c['times'], gen_path=path)
     r['drift'] = info['drift']
     # declared function set must be present in verus' report
     declared = [f['key'] for f in info['functions']]
@@ -371,24 +397,21 @@ def check_unit(name, canary=True, rlimit=None, keep=False, mutate=None):
     if not c['failed'] and not c['inconclusive']:
         if c['total_verified'] < len(declared) or c['total_verified'] == 0:
             r['inconclusive'].append('vacuity: verus verified %d items, unit declares %d functions' % (c['total_verified'], len(declared)))
-    if canary and not mutate and not c['failed'] and not c['inconclusive']:
-        try:
-            ctext, cinfo = build_unit(unit, canary=True)
-            cpath = os.path.join(CACHE, 'gen', 'vk_%s__canary.rs' % name)
-            open(cpath, 'w').write(ctext)
-            cres = run_verus(cpath, rlimit or unit.get('rlimit', 60))
+    if cfut is not None:
+        cres = cfut.result()
+        if not c['failed'] and not c['inconclusive']:
             cc = classify(cres, cinfo, name)
             if cc['inconclusive']:
-                raise Inconclusive('; '.join(cc['inconclusive'])[:600])
-            failed_fns = set(x['fn'] for x in cc['failed'])
-            missing = [k for k in declared if k not in failed_fns]
-            r['canary'] = dict(expected=len(declared), failed_as_required=len(declared) - len(missing), wall=cres['wall'])
-            if missing:
-                r['inconclusive'].append('canary: assert(false) verified inside %s (vacuous contract?)' % ', '.join(missing))
-            if not keep:
-                os.remove(cpath)
-        except Inconclusive as e:
-            r['inconclusive'].append('canary: ' + str(e))
+                r['inconclusive'].append('canary: ' + '; '.join(cc['inconclusive'])[:600])
+            else:
+                failed_fns = set(x['fn'] for x in cc['failed'])
+                missing = [k for k in declared if k not in failed_fns]
+                r['canary'] = dict(expected=len(declared), failed_as_required=len(declared) - len(missing), wall=cres['wall'])
+                if missing:
+                    r['inconclusive'].append('canary: assert(false) verified inside %s (vacuous contract?)' % ', '.join(missing))
+        if not keep and os.path.exists(cpath):
+            os.remove(cpath)
+    ex.shutdown(wait=False)
     r['ok'] = not r['failed'] and not r['inconclusive']
     r['wall'] = time.time() - t0
     return r
